@@ -2,6 +2,8 @@ package main
 
 import (
 	"encoding/hex"
+	"sort"
+	"strings"
 
 	"github.com/btcsuite/btcd/chainhash/v2"
 	"github.com/btcsuite/btcd/txscript/v2"
@@ -71,20 +73,26 @@ func tapLeafOutput(internal []byte, leafVersion byte, script []byte) (pkScript, 
 // ---- worker-local spend context (no per-case allocation of the tx) ----
 
 type wctx struct {
-	tx   *wire.MsgTx
-	out  *wire.TxOut
-	sp   Spend
-	memo refscript.TweakMemo
-	chk  refscript.Checker
+	tx    *wire.MsgTx
+	out   *wire.TxOut
+	sp    Spend
+	memo  refscript.TweakMemo
+	chk   refscript.Checker
 	fetch singleFetcher
 	n     int // cases executed on the fast path (flushed to ev by done())
+	acc   int // of which accepted by both
+	layer string
 }
 
 // done flushes the local counters.
 func (w *wctx) done() {
 	theRun.Eval(w.n)
 	theRun.Trace(w.n)
-	w.n = 0
+	if w.layer != "" {
+		theRun.Add("accepted_"+w.layer, int64(w.acc))
+		theRun.Add("runs_"+w.layer, int64(w.n))
+	}
+	w.n, w.acc = 0, 0
 }
 
 type singleFetcher struct{ out *wire.TxOut }
@@ -114,12 +122,22 @@ func (w *wctx) set(pk, sig []byte, wit [][]byte) {
 // fastCompare is compare() without allocation on the agreeing path.
 func (w *wctx) run(layer string, fs flagSet, desc string) bool {
 	w.sp.Flags = fs.f
+	if w.layer == "" {
+		if i := strings.IndexByte(layer, '/'); i > 0 {
+			w.layer = layer[:i]
+		} else {
+			w.layer = layer
+		}
+	}
 	r := theRun
 	w.n++
 	okB, panicked := w.btcd()
 	in := w.tx.TxIn[0]
 	ref := refscript.VerifyScript(in.SignatureScript, w.out.PkScript, in.Witness, toCore(fs.f), &w.chk)
 	if !panicked && okB == (ref == "") {
+		if okB {
+			w.acc++
+		}
 		return okB
 	}
 	// slow path: clone and go through the generic reporter (re-runs 3x)
@@ -145,3 +163,14 @@ func (w *wctx) btcd() (ok bool, panicked bool) {
 	}
 	return vm.Execute() == nil, false
 }
+
+func sortedKeys(m map[string][]byte) []string {
+	out := make([]string, 0, len(m))
+	for k := range m {
+		out = append(out, k)
+	}
+	sort.Strings(out)
+	return out
+}
+
+func sortStrings(s []string) { sort.Strings(s) }
